@@ -81,6 +81,19 @@ func (s Ssid) GetHashCode() uint32 {
 	return h
 }
 
+// equals checks whether two SSIDs are the same, part by part.
+func (s Ssid) equals(other Ssid) bool {
+	if len(s) != len(other) {
+		return false
+	}
+	for i := range s {
+		if s[i] != other[i] {
+			return false
+		}
+	}
+	return true
+}
+
 // Encode encodes the SSID to a binary format
 func (s Ssid) Encode() string {
 	bin := make([]byte, 4)
@@ -230,6 +243,7 @@ type Counter struct {
 	Ssid    Ssid
 	Channel []byte
 	Counter int
+	next    *Counter // The next counter whose SSID has the same hash code.
 }
 
 // NewCounters creates a new container.
@@ -268,14 +282,27 @@ func (s *Counters) Decrement(ssid Ssid) (last bool) {
 	defer s.Unlock()
 
 	key := ssid.GetHashCode()
-	if m, exists := s.m[key]; exists {
+	var prev *Counter
+	for m := s.m[key]; m != nil; prev, m = m, m.next {
+		if !m.Ssid.equals(ssid) {
+			continue
+		}
+
 		m.Counter--
 
 		// Remove if there's no subscribers left
 		if m.Counter <= 0 {
-			delete(s.m, ssid.GetHashCode())
+			switch {
+			case prev != nil:
+				prev.next = m.next
+			case m.next != nil:
+				s.m[key] = m.next
+			default:
+				delete(s.m, key)
+			}
 			return true
 		}
+		return false
 	}
 
 	return false
@@ -288,7 +315,11 @@ func (s *Counters) All() []Counter {
 
 	clone := make([]Counter, 0, len(s.m))
 	for _, m := range s.m {
-		clone = append(clone, *m)
+		for ; m != nil; m = m.next {
+			c := *m
+			c.next = nil
+			clone = append(clone, c)
+		}
 	}
 
 	return clone
@@ -297,14 +328,18 @@ func (s *Counters) All() []Counter {
 // getOrCreate retrieves a single subscription meter or creates a new one.
 func (s *Counters) getOrCreate(ssid Ssid, channel []byte) (meter *Counter) {
 	key := ssid.GetHashCode()
-	if m, exists := s.m[key]; exists {
-		return m
+	for m := s.m[key]; m != nil; m = m.next {
+		if m.Ssid.equals(ssid) {
+			return m
+		}
 	}
 
+	// Different SSIDs may share a hash code (it is an XOR of the parts), chain them
 	meter = &Counter{
 		Ssid:    ssid,
 		Channel: channel,
 		Counter: 0,
+		next:    s.m[key],
 	}
 	s.m[key] = meter
 	return
